@@ -694,7 +694,17 @@ func (w *idxWriter) Commit(ctx context.Context) (telem.TimeStamp, error) {
 	}
 	// because the range is exclusive, we need to add 1 nanosecond to the end
 	end.Lower++
-	for _, chW := range w.internal {
+	// Commit the index channel before the channels it indexes. If the process dies
+	// between two of these commits, a data channel must never be ahead of its index:
+	// samples without timestamps cannot be read back, whereas an index that is ahead of
+	// a data channel is simply the state before this commit for that channel.
+	if idxW, ok := w.internal[w.idx.ch.Key]; ok {
+		err = idxW.CommitWithEnd(ctx, end.Lower)
+	}
+	for key, chW := range w.internal {
+		if key == w.idx.ch.Key {
+			continue
+		}
 		err = errors.Join(err, chW.CommitWithEnd(ctx, end.Lower))
 	}
 	if err == nil {
@@ -714,12 +724,22 @@ func (w *idxWriter) Close() (ControlUpdate, error) {
 	update := ControlUpdate{
 		Transfers: make([]control.Transfer, 0, len(w.internal)),
 	}
-	for _, uWriter := range w.internal {
+	closeOne := func(uWriter *unaryWriterState) {
 		transfer, closeErr := uWriter.Close()
 		if closeErr != nil {
 			err = errors.Join(err, closeErr)
 		} else if transfer.Occurred() {
 			update.Transfers = append(update.Transfers, transfer)
+		}
+	}
+	// Closing a writer persists its pointers: the index channel goes first for the same
+	// reason as in Commit.
+	if idxW, ok := w.internal[w.idx.ch.Key]; ok {
+		closeOne(idxW)
+	}
+	for key, uWriter := range w.internal {
+		if key != w.idx.ch.Key {
+			closeOne(uWriter)
 		}
 	}
 	return update, err
